@@ -119,16 +119,17 @@ func pushdownAllowed(opts *Opts, query *sql.Query) (bool, error) {
 				log.Debugf("Unexpected error checking if pushdown allowed: %v", err)
 				return false, err
 			}
+			if !tableKeysConfinedToPartitions(t) {
+				// The union of the partitions' rows is only the table's rows if a
+				// given table key lives on a single partition. That is not the case
+				// if the table is partitioned by dimensions that its own GROUP BY
+				// discards (including the default of partitioning by all of a
+				// point's dimensions). Whatever the query groups by, its groups are
+				// then spread across partitions as well.
+				log.Debug("Pushdown not allowed because table keys are spread across partitions")
+				return false, nil
+			}
 			if current.GroupByAll && parentGroupByAll {
-				if !tableKeysConfinedToPartitions(t) {
-					// The union of the partitions' rows is only the table's rows if a
-					// given table key lives on a single partition. That is not the case
-					// if the table is partitioned by dimensions that its own GROUP BY
-					// discards (including the default of partitioning by all of a
-					// point's dimensions).
-					log.Debug("Pushdown not allowed because table keys are spread across partitions")
-					return false, nil
-				}
 				log.Debug("Pushdown allowed because we're grouping by all")
 			} else {
 				partitionBy := t.GetPartitionBy()
